@@ -9,7 +9,7 @@ import shutil
 import tempfile
 
 from .. import harness as H
-from ..engine import pmap
+from ..engine import pmap, cpu_guard, CpuHang
 from ..ref import dhcp as D
 from ..ref import netwire as NW
 from ..ref import route as R
@@ -117,12 +117,16 @@ def apply_event(st, ev, tmpdir, judge=True, history=None):
             other = NW.pack_frame(0o2, 0, (step + 1) & 0xFFFF, 196, INTERLEAVED_RESERVED, bytes([UNKNOWN_LOOKUP_ID]))
             w.at(w.now + 1300 * 1000, GhostShot(g, R.pipe_address(0, 2), other), "fire")
         try:
-            ret = m.update()
-            if kind == "reqx":
-                w.advance(2 * MS)
-                m.update()
+            with cpu_guard(20):
+                ret = m.update()
+                if kind == "reqx":
+                    w.advance(2 * MS)
+                    m.update()
         except (HarnessError, Abort):
             raise
+        except CpuHang:
+            v("not-terminating:request:%s" % via_name(via), "update() used 20 s of CPU time without returning on a request of id %d via 0o%o" % (nid, via))
+            return viol, "req:hang"
         except Exception as e:  # noqa
             v("raises-%s:request:%s" % (type(e).__name__, via_name(via)), "update() raised %r on a request of id %d via 0o%o" % (e, nid, via))
             return viol, "req:raised"
